@@ -24,10 +24,10 @@ def plan(ctx):
     k = P.per_interp_shards(ctx)
     for v in ctx.producers:
         if ctx.tier == "quick":
-            cases = P.corpus_cases(ctx, v, n_files=150, n_w3=120, modes=20, max_file_bytes=150000)
+            cases = P.corpus_cases(ctx, v, n_files=150, n_extra=30, n_w3=120, modes=20, max_file_bytes=150000)
             nexec = 160
         else:
-            cases = P.corpus_cases(ctx, v, all_files=True, n_w3=1500, modes=200)
+            cases = P.corpus_cases(ctx, v, all_files=True, all_extra=True, n_w3=1500, modes=200)
             nexec = 3000
         shards.extend(P.split(ctx, v, cases, k, "C05:", extra={"nexec": nexec, "nshards": k}))
     return shards
